@@ -30,11 +30,13 @@ TREES = {
 }
 # version 4: a hex option whose user value may be spelled with or without the 0x prefix (same number in the header)
 TREES[4] = 'mainmenu "t"\nconfig B\n    bool "B"\nconfig G\n    bool "G"\n    default y\nconfig N_I\n    int "I"\n    depends on G\n    default 1\nconfig H\n    hex "H"\n    default 0x10\n'
-ALL_NAMES = ["B", "G", "N_I", "S", "X", "H", "OLDB", "OLD_S", "OLD_I", "OLDER_I"]
+# version 5: an int option whose user value may be spelled with a leading zero (same number in the header)
+TREES[5] = 'mainmenu "t"\nconfig B\n    bool "B"\nconfig G\n    bool "G"\n    default y\nconfig N_I\n    int "I"\n    depends on G\n    default 1\nconfig Z\n    int "Z"\n    default 10\n'
+ALL_NAMES = ["B", "G", "N_I", "S", "X", "H", "Z", "OLDB", "OLD_S", "OLD_I", "OLDER_I"]
 
 
 def user_assignments(version):
-    last = ("S", ["a", 'q"z']) if version == 1 else ("H", ["ff", "0xff"]) if version == 4 else ("X", ["n", "y"])
+    last = ("S", ["a", 'q"z']) if version == 1 else ("H", ["ff", "0xff"]) if version == 4 else ("Z", ["7", "07"]) if version == 5 else ("X", ["n", "y"])
     out = []
     for b in "ny":
         for g in "ny":
@@ -65,6 +67,7 @@ def abstract_cfg(run, version, assign):
         "isbool": {},
         "isstr": {},
         "ishex": {},
+        "isint": {},
         "rhs": {},
         "aliases": {},
         "vv": {n: hv.get(n, "absent") for n in ALL_NAMES},
@@ -76,8 +79,11 @@ def abstract_cfg(run, version, assign):
         rec["isbool"][s.name] = s.orig_type == kc.BOOL
         rec["isstr"][s.name] = s.orig_type == kc.STRING
         rec["ishex"][s.name] = s.orig_type == kc.HEX
+        rec["isint"][s.name] = s.orig_type == kc.INT
         if s.orig_type == kc.HEX and rec["val"][s.name] and not rec["val"][s.name].startswith(("0x", "0X")):
             rec["val"][s.name] = "0x" + rec["val"][s.name]  # the number as the header spells it
+        if s.orig_type == kc.INT and re.fullmatch(r"-?[0-9]+", rec["val"][s.name] or ""):
+            rec["val"][s.name] = str(int(rec["val"][s.name]))  # likewise (no leading zeros)
         cs = s.config_string
         rec["rhs"][s.name] = cs.split("=", 1)[1].rstrip("\n") if (cs and "=" in cs and not cs.startswith("#")) else ""
     for n in ALL_NAMES:
@@ -89,10 +95,10 @@ def abstract_cfg(run, version, assign):
 def config_family(run, tier):
     fam = []
     if tier == "quick":
-        picks = {1: [0, 5, 10, 15], 2: [0, 7, 9], 3: [6, 15], 4: [0, 1]}
+        picks = {1: [0, 5, 10, 15], 2: [0, 7, 9], 3: [6, 15], 4: [0, 1], 5: [0, 1]}
     else:
-        picks = {1: list(range(0, 16, 1)), 2: list(range(0, 16, 2)), 3: list(range(1, 16, 3)), 4: [0, 1, 6, 7]}
-    for v in (1, 2, 3, 4):
+        picks = {1: list(range(0, 16, 1)), 2: list(range(0, 16, 2)), 3: list(range(1, 16, 3)), 4: [0, 1, 6, 7], 5: [0, 1, 6, 7]}
+    for v in (1, 2, 3, 4, 5):
         ua = user_assignments(v)
         for i in picks[v]:
             fam.append(abstract_cfg(run, v, ua[i]))
@@ -120,6 +126,8 @@ def unq_table(raws):
             out[r] = re.sub(r"\\(.)", r"\1", sm.group(1))
         elif re.fullmatch(r"(0[xX])?[0-9a-fA-F]+", r):
             out[r] = r if r.startswith(("0x", "0X")) else "0x" + r  # hex spellings -> what the header shows
+        if re.fullmatch(r"-?[0-9]+", r):
+            out["int:" + r] = str(int(r))  # decimal spellings (leading zeros) -> what the header shows
     return out
 
 
